@@ -66,6 +66,14 @@ func (fc *FCtx) execBlock(stmts []ast.Stmt, st *State) *Flow {
 			}
 		}
 	}
+	if top && cur != nil {
+		// "assert at end": where the function's own body falls off its end (the normal completion of a function
+		// without results), over the locals of its outermost block
+		if cs := fc.C.NamedAsserts["at:end"]; len(cs) > 0 {
+			fc.anchored["at:end"] = true
+			checkAsserts(cs, "at-end", fc.FI.Body().Rbrace)
+		}
+	}
 	if cur != nil {
 		out.normal = []*State{cur}
 	}
